@@ -199,6 +199,34 @@ func wildOwn(t *testing.T, ra *ndp.RouterAdvertisement, pre []ndp.Option) []ndp.
 	return ra.Options[len(pre):]
 }
 
+// wildClock: the clock of the deprecated wildcard stanzas.  Every reading within one Apply is a step
+// later than the one before (as a real clock's are): "all with the stanza's flags and lifetimes"
+// means that ONE reading decides the lifetimes of all the options a stanza expands to.
+type wildClockT struct {
+	first time.Time
+	step  time.Duration
+	reads int
+}
+
+var (
+	wildEpoch = time.Unix(1700000000, 0)
+	wildClock wildClockT
+)
+
+func wildNow() time.Time {
+	t := wildClock.first.Add(time.Duration(wildClock.reads) * wildClock.step)
+	wildClock.reads++
+	return t
+}
+
+func remainingAt(life time.Duration, j int) time.Duration {
+	d := wildEpoch.Add(life).Sub(wildClock.first.Add(time.Duration(j) * wildClock.step))
+	if d < 0 {
+		return 0
+	}
+	return d
+}
+
 var (
 	c13Plugins = map[[2]int]*Prefix{}
 	c13Cur     []system.IP
@@ -219,11 +247,22 @@ func c13Run(t *testing.T, out *vfh.Out, bits int, k int, as []system.IP) {
 	// (as the daemon does for every RA): nothing may be remembered from an earlier expansion
 	c13Cur = as
 	key := [2]int{bits, k % 140}
+	// one stanza variant in seven is deprecated: its lifetimes count down on a clock that moves
+	// with every reading; what the stanza calls for is the time remaining at ONE reading
+	dep := k%7 == 3 && vfPrepareIfi == nil
+	cfgValid, cfgPref := valid, pref
+	if dep {
+		wildClock = wildClockT{first: wildEpoch.Add(time.Duration(300+(k%11)*450) * time.Millisecond), step: 400 * time.Millisecond}
+		valid, pref = remainingAt(cfgValid, 0), remainingAt(cfgPref, 0)
+	}
 	p, ok := c13Plugins[key]
 	if !ok || vfPrepareIfi != nil {
 		p = &Prefix{Auto: true, Prefix: stanza, OnLink: onLink, Autonomous: auto,
-			ValidLifetime: valid, PreferredLifetime: pref,
+			ValidLifetime: cfgValid, PreferredLifetime: cfgPref,
 			Addrs: func() ([]system.IP, error) { return c13Cur, nil }}
+		if dep {
+			p.Deprecated, p.Epoch, p.TimeNow = true, wildEpoch, wildNow
+		}
 		c13Plugins[key] = p
 	}
 	if vfPrepareIfi != nil {
@@ -248,13 +287,35 @@ func c13Run(t *testing.T, out *vfh.Out, bits int, k int, as []system.IP) {
 	} else {
 		own := wildOwn(t, ra, pre)
 		impl.N(len(own))
+		// a deprecated stanza: whichever single reading j of this Apply decided the lifetimes of
+		// ALL its options is reported as the first one (reading the clock once, early or late, is
+		// the stanza's business; a reading per option is not)
+		norm := -1
+		if dep && len(own) > 0 {
+			for j := 0; j < wildClock.reads && norm < 0; j++ {
+				all := true
+				for _, o := range own {
+					pi, ok := o.(*ndp.PrefixInformation)
+					if !ok || pi.ValidLifetime != remainingAt(cfgValid, j) || pi.PreferredLifetime != remainingAt(cfgPref, j) {
+						all = false
+					}
+				}
+				if all {
+					norm = j
+				}
+			}
+		}
 		for _, o := range own {
 			pi, ok := o.(*ndp.PrefixInformation)
 			if !ok {
 				t.Fatalf("unexpected option %T", o)
 			}
 			impl.Prefix(netip.PrefixFrom(pi.Prefix, int(pi.PrefixLength)))
-			impl.B(pi.OnLink).B(pi.AutonomousAddressConfiguration).I(int64(pi.ValidLifetime)).I(int64(pi.PreferredLifetime))
+			v, pf := pi.ValidLifetime, pi.PreferredLifetime
+			if norm >= 0 {
+				v, pf = valid, pref
+			}
+			impl.B(pi.OnLink).B(pi.AutonomousAddressConfiguration).I(int64(v)).I(int64(pf))
 		}
 	}
 	out.Line(c.String(), impl.String())
@@ -512,6 +573,13 @@ func c15Run(t *testing.T, out *vfh.Out, k int, rs []netip.Prefix) {
 	routes := make([]system.Route, len(rs))
 	pref := []ndp.Preference{ndp.Medium, ndp.High, ndp.Low}[k%3]
 	lt := time.Duration(11+k%9) * time.Second
+	// one stanza variant in nine is deprecated (see c13Run)
+	dep := k%9 == 4 && vfPrepareIfi == nil
+	cfgLt := lt
+	if dep {
+		wildClock = wildClockT{first: wildEpoch.Add(time.Duration(10300+(k%13)*450) * time.Millisecond), step: 400 * time.Millisecond}
+		lt = remainingAt(cfgLt, 0)
+	}
 	c := new(vfh.Toks).S("wr").N(int(pref)).I(int64(lt)).N(len(rs))
 	for i, p := range rs {
 		// the interface index and the kernel's preference of a dump entry are immaterial to the
@@ -523,8 +591,11 @@ func c15Run(t *testing.T, out *vfh.Out, k int, rs []netip.Prefix) {
 	c15Cur = routes
 	rt, ok := c15Plugins[k%9]
 	if !ok || vfPrepareIfi != nil {
-		rt = &Route{Auto: true, Prefix: mp("::/0"), Preference: pref, Lifetime: lt,
+		rt = &Route{Auto: true, Prefix: mp("::/0"), Preference: pref, Lifetime: cfgLt,
 			Routes: func() ([]system.Route, error) { return c15Cur, nil }}
+		if dep {
+			rt.Deprecated, rt.Epoch, rt.TimeNow = true, wildEpoch, wildNow
+		}
 		c15Plugins[k%9] = rt
 	}
 	if vfPrepareIfi != nil {
@@ -541,13 +612,32 @@ func c15Run(t *testing.T, out *vfh.Out, k int, rs []netip.Prefix) {
 	} else {
 		own := wildOwn(t, ra, pre)
 		impl.N(len(own))
+		norm := -1
+		if dep && len(own) > 0 {
+			for j := 0; j < wildClock.reads && norm < 0; j++ {
+				all := true
+				for _, o := range own {
+					ri, ok := o.(*ndp.RouteInformation)
+					if !ok || ri.RouteLifetime != remainingAt(cfgLt, j) {
+						all = false
+					}
+				}
+				if all {
+					norm = j
+				}
+			}
+		}
 		for _, o := range own {
 			ri, ok := o.(*ndp.RouteInformation)
 			if !ok {
 				t.Fatalf("unexpected option %T", o)
 			}
 			impl.Prefix(netip.PrefixFrom(ri.Prefix, int(ri.PrefixLength)))
-			impl.N(int(ri.Preference)).I(int64(ri.RouteLifetime))
+			l := ri.RouteLifetime
+			if norm >= 0 {
+				l = lt
+			}
+			impl.N(int(ri.Preference)).I(int64(l))
 		}
 	}
 	out.Line(c.String(), impl.String())
